@@ -13,7 +13,7 @@ Definition gone (st : state) (c : N) : Prop :=
 (* the client whose process performs the op (schedule, clock and housekeeping ops have none) *)
 Definition op_client (o : op) : option N :=
   match o with
-  | OSend _ _ c _ _ _ | OFetch c _ | OReg c _ _ | OMode c _ _ | OName c _ _ | OInfo c _ | OPatch c _
+  | OSend _ _ c _ _ _ | OFetch c _ | OReg c _ _ | OMode c _ _ | OName c _ _ | OInfo c _ | OOpq c _ _
   | ODisc c | OCli c => Some c
   | OTick _ | OHK | OSrv _ | OJump _ | OSrvSame _ => None
   end.
@@ -70,7 +70,7 @@ Proof.
        (EInfo c (st_next st) (Some E_NOTCONN) 0 None false) Hc) as [W E].
     destruct (issue _ _ _ _ _) as [st1 ev]. cbn [fst snd] in *. subst ev.
     split; [exact W|]. intros e [<-|[]]. split; reflexivity.
-  - destruct (issue_closed st c KSet (fun rid => RPatch rid u) (EDone c (st_next st) (Some E_NOTCONN)) Hc) as [W E].
+  - destruct (issue_closed st c KSet (fun rid => ROpq rid kd u) (EDone c (st_next st) (Some E_NOTCONN)) Hc) as [W E].
     destruct (issue _ _ _ _ _) as [st1 ev]. cbn [fst snd] in *. subst ev.
     split; [exact W|]. intros e [<-|[]]. split; reflexivity.
   - (* Stop() again *)
